@@ -47,8 +47,9 @@ namespace akb {
   int64_t next_handle = 1;
   thread_local std::string last_error;
   thread_local std::string last_string;
-  std::mutex released_mutex;
-  std::vector<int64_t> released_tokens;
+  // heap-allocated and never destroyed: deleters may still run while static objects are torn down at exit
+  std::mutex& released_mutex = *new std::mutex();
+  std::vector<int64_t>& released_tokens = *new std::vector<int64_t>();
 
   int64_t put(const ak::ContentPtr& c) {
     if (c.get() == nullptr) throw BridgeError("bridge: null ContentPtr returned");
@@ -314,6 +315,7 @@ static void dispatch(const std::string& op, const std::vector<int64_t>& h, const
   if (op == "type_equal") { ret_bool(out, gett(h.at(0))->equal(gett(h.at(1)), ia.at(0) != 0)); return; }
   if (op == "arraytype_tostring") { ak::ArrayType t(no_params(), std::string(), gett(h.at(0)), ia.at(0)); ret_str(out, t.tostring()); return; }
 
+  if (dispatch_more(op, h, ia, da, ss, out)) return;
   // ------------------------------------------------------------------ everything below works on a content
   const ak::ContentPtr& c = getc(h.at(0));
   ak::Content* raw = c.get();
@@ -603,7 +605,6 @@ static void dispatch(const std::string& op, const std::vector<int64_t>& h, const
   if (op == "numpy_iscontiguous") { if (auto r = dynamic_cast<ak::NumpyArray*>(raw)) { ret_bool(out, r->iscontiguous()); return; } throw BridgeError("bridge: not NumpyArray"); }
   if (op == "numpy_isempty") { if (auto r = dynamic_cast<ak::NumpyArray*>(raw)) { ret_bool(out, r->isempty()); return; } throw BridgeError("bridge: not NumpyArray"); }
 
-  if (dispatch_more(op, h, ia, da, ss, out)) return;
   throw BridgeError("bridge: unknown op " + op);
 }
 
